@@ -20,8 +20,26 @@ is/hail/expr/ir/Parser.scala and is/hail/utils/StringEscapeUtils.scala; nothing 
       extracted) maps the emitted text back to the same UTF-16 code units.
   R6  engine type syntax: the keyword of every `_parsable_string` template has an arm in IRParser.type_expr, whose body consumes
       the punctuation the template prints.
-Does not decide: semantic equality of parsed and printed types beyond the class; parsimonious >= 0.10 matches regex terminals with
-the third-party `regex` module (not installed here) whose \\w differs from `re` for a few code points - `re` semantics are assumed.
+  R7  hl.dtype returns the parse of ITS OWN argument (abstract data flow over dtype and the helpers it calls, across modules): every
+      return is visit(parse(T(arg))) with T the identity or a transformation the GRAMMAR makes harmless (strip(): the start rule begins and
+      ends with a greedy whitespace terminal covering what is stripped), or a read of a memo container whose key K(arg) is injective with
+      respect to the parse (closed table: the argument, tuples / str() / constant affixes of it, strip) and that is only written with the
+      value parsed from the same text under the same key; functools caches are keyed by the argument itself.  For other key / input
+      transformations the expression is EVALUATED on the printed forms of the sample types: a collision of two texts that denote different
+      types (replayed through dtype in a fresh modelled process) is reported with the concrete history; no collision -> decline.  The
+      visitor class keeps no state; a printer that remembers its text only reads attributes fixed at construction.
+  R8  semantic round trip by evaluation (engines/pyconc.py, our own evaluator; the repository is parsed, never run): sample instances of
+      every HailType class (constructor argument kinds from the typecheck decorator; field / genome names from a battery of colliding and
+      hostile names; nested positions) are printed with the interpreted `__str__` / `pretty`, parsed by the interpreted hl.dtype (grammar:
+      peglite; parsimonious node shapes and NodeVisitor.visit modelled) and compared with the interpreted `==`; in two modelled processes
+      (sample order / reverse order) so that a result that depends on earlier calls shows.
+  R9  the engine reading: IRLexer.token and IRParser.type_expr (arm scripts: punctuation / identifier / int32_literal / type_expr /
+      repsepUntil / struct_field, extracted fail-closed) are run on `_parsable_string()` of every sample; the text must be consumed in full
+      and yield the same constructor structure, names (after unescapeString) and dimensions as the Python grammar reads from `str()`;
+      constructor arguments of each arm in reading order.
+Does not decide: equality beyond the sampled instances (R4/R8/R9 sample; R1/R2/R5/R7 are exhaustive over their domains); tvariable;
+parsimonious >= 0.10 matches regex terminals with the third-party `regex` module (not installed here) whose \\w differs from `re` for
+a few code points - `re` semantics are assumed.
 """
 from __future__ import annotations
 
@@ -46,14 +64,18 @@ META = dict(
     text='Lexical agreement between the Python printers/escapers, the Python type grammar and the engine lexer is decided exactly on '
          'regular languages over all Unicode code points (inclusions by DFA product with shortest witnesses, per escape-unit kind); '
          'the print/parse round trip is decided per type class by interpreting the grammar text with our own PEG interpreter on '
-         'instantiated print templates (structural induction over the type constructors, sampled field names). Sampling of field '
-         'names and children in R4 keeps the level at other.',
+         'instantiated print templates (structural induction over the type constructors, sampled field names); hl.dtype is decided by abstract '
+         'data flow (its result is the parse of its own argument; memo keys injective with respect to the parse, lossy keys shown by a concrete '
+         'colliding history); printers, dtype, the visitor and the engine parser are evaluated / modelled on sample types of every class. '
+         'Sampling of field names and children in R4/R8/R9 keeps the level at other.',
     note='Trusted: CPython ast/re._parser, the unicode_escape codec and str predicates of the running interpreter, '
          'Character.isJavaIdentifierStart/Part of the installed JDK (fallback: unicodedata categories), the definition of '
-         'scala-parser-combinators JavaTokenParsers.ident, engines/relang.py, peglite.py, scalalite.py, strpred.py. Assumes regex '
+         'scala-parser-combinators JavaTokenParsers.ident, engines/relang.py, peglite.py, scalalite.py, strpred.py, pyconc.py (our evaluator of a '
+         'Python subset), the models of parsimonious Grammar / NodeVisitor and of the reference-genome registry. Assumes regex '
          'terminals of the grammar follow stdlib `re` semantics.',
     technique='static analysis: regular-language inclusion over a Unicode partition, symbolic evaluation of escapers into unit tables, '
-              'PEG interpretation of the extracted grammar text, fail-closed Scala fragment extraction',
+              'PEG interpretation of the extracted grammar text, fail-closed Scala fragment extraction, inter-procedural abstract data flow, '
+              'concrete evaluation of extracted syntax trees with our own interpreter',
     design_ref='DESIGN.md §3 C31',
 )
 
@@ -1077,8 +1099,8 @@ class Session:
             return repr(t)
 
 
-_NAME_BATTERY = ['a', 'x_1', 'a b', 'a  b', ' a b', 'a b ', 'A b', 'ab', 'AB', 'a-b', 'a - b', '`', '\\', 'é', 'É', '1a', '', '\n', '\U0001f600', 'int32',
-                 'a:b', '}', "it's", 'tab\there', 'a.b', '"', 'struct', 'ﬁ', 'fi', 'a b']
+_NAME_BATTERY = ['a', 'x_1', 'a b', 'a  b', ' a b', 'a b ', 'A b', 'ab', 'AB', 'a-b', 'a - b', '`', '\\', '\xe9', '\xc9', '1a', '', '\n', '\U0001f600', 'int32',
+                 'a:b', '}', "it's", 'tab\there', 'a.b', '"', 'struct', '\ufb01', 'fi', 'a\ufb01', 'afi', 'a\xa0b', '_x', 'a\xe9', 'a\xc9']
 
 
 class Samples:
@@ -1290,10 +1312,16 @@ def check_round_trip(ctx: Ctx, mt: pf.Module, classes: Dict[str, ast.ClassDef], 
     counts: Dict[Tuple[str, str], int] = {}
     bad_a = set()
     res_a: Dict[int, Any] = {}
+    seen_a: Dict[str, Tuple[Any, Optional[str]]] = {}
+    seen_b: Dict[str, Tuple[Any, Optional[str]]] = {}
     for i, (cname, pname, desc, t, text, how) in enumerate(printed):
         key = (cname, pname)
         counts[key] = counts.get(key, 0) + 1
-        t2, err = ses.try_dtype(text)
+        if text in seen_a:
+            t2, err = seen_a[text]
+        else:
+            t2, err = ses.try_dtype(text)
+            seen_a[text] = (t2, err)
         ok = err is None and types_equal(ses, t, t2)
         res_a[i] = t2
         if not ok:
@@ -1315,7 +1343,11 @@ def check_round_trip(ctx: Ctx, mt: pf.Module, classes: Dict[str, ast.ClassDef], 
         cname, pname, desc, t, text, how = printed[i]
         if i in bad_a:
             continue
-        t2, err = ses_b.try_dtype(text)
+        if text in seen_b:
+            t2, err = seen_b[text]
+        else:
+            t2, err = ses_b.try_dtype(text)
+            seen_b[text] = (t2, err)
         ok = err is None and struct_equal(ses_b.it, res_a[i], t2)
         if not ok and (cname, pname) not in failures:
             got = f'raises {err}' if err is not None else f'returns {ascii(ses_b.show(t2))}'
@@ -1369,7 +1401,7 @@ class Flow:
         for st in m.tree.body:
             if isinstance(st, (ast.FunctionDef, ast.AsyncFunctionDef, ast.ClassDef)) and st.name == name:
                 bindings.append(st)
-            elif isinstance(st, ast.Assign) and any(isinstance(x, ast.Name) and x.id == name for t in st.targets for x in ast.walk(t)):
+            elif isinstance(st, ast.Assign) and any(isinstance(x, ast.Name) and x.id == name and isinstance(x.ctx, ast.Store) for t in st.targets for x in ast.walk(t)):
                 bindings.append(st.value if all(isinstance(t, ast.Name) for t in st.targets) else st)
             elif isinstance(st, ast.AnnAssign) and isinstance(st.target, ast.Name) and st.target.id == name and st.value is not None:
                 bindings.append(st.value)
@@ -1415,6 +1447,16 @@ class Flow:
             return self.resolve_global(m, b.id, depth + 1)
         if isinstance(b, ast.Call):
             head = pf.dotted(b.func)
+            # f = functools.lru_cache(maxsize=N)(g)  /  f = functools.cache(g)
+            deco = b.func.func if isinstance(b.func, ast.Call) else b.func
+            dn = pf.dotted(deco)
+            if dn in _CACHE_DECORATORS and len(b.args) == 1 and isinstance(b.args[0], ast.Name) and not b.keywords and \
+                    (isinstance(b.func, ast.Call) or dn.split('.')[-1] == 'cache' or True):
+                r0 = self.resolve_global(m, dn.split('.')[0], depth + 1)
+                inner = self.resolve_global(m, b.args[0].id, depth + 1)
+                if r0[0] == 'pure' and (r0[1].startswith('functools') or r0[1] in _CACHE_DECORATORS) and inner[0] == 'func':
+                    self.decorated.append(f'{m.rel}::{name} = {dn}({b.args[0].id})')
+                    return inner
             if head is not None:
                 h = self.resolve_global(m, head.split('.')[0], depth + 1) if '.' not in head else ('pure', head)
                 if h[0] == 'pure' and h[1].split('.')[-1] == 'Grammar' and 'parsimonious' in h[1]:
@@ -2014,6 +2056,14 @@ def check_parse_flow(ctx: Ctx, mt: pf.Module, G: P.Grammar, battery: List[Tuple[
             got, perr = true_parse(ses, s2)
             if perr is not None or not same_type(ty, got):
                 what = f'does not parse ({perr})' if perr is not None else f'parses as {ascii(ses.show(got))}'
+                fresh = Session()
+                try:
+                    fgot, ferr = fresh.try_dtype(text)
+                except C.Unsupported as ex:
+                    return 'unknown', f'cannot replay dtype({ascii(text)}) with the evaluator: {ex}'
+                if ferr is None and struct_equal(fresh.it, ty, fgot):
+                    return 'unknown', (f'`{_tsrc(t)}` alters {ascii(text)} in a way that changes its parse, but evaluating dtype on it does not reproduce a wrong '
+                                       f'result (guarded path?)')
                 return 'bad', f'for t = {desc}, the printed form {ascii(text)} is turned into {ascii(s2) if isinstance(s2, str) else type(s2).__name__} before parsing, which {what}, not t'
         return 'unknown', f'`{_tsrc(t)}` is applied to the text before parsing; it is not a recognised parse-preserving shape (no sample is altered by it)'
 
@@ -2714,7 +2764,7 @@ def run(ctx: Ctx) -> None:
     ctx.rule('R8', 'for every sample type t of every HailType class and every printer (str, pretty): hl.dtype(<printed t>) == t, evaluated with our '
                    'interpreter in two modelled processes (sample order and reverse order)', 38)
     ctx.rule('R9', 'IRParser.type_expr (modelled) reads t._parsable_string() of every sample in full, with the same structure, names and dimensions as '
-                   'the Python grammar reads str(t); constructor arguments of the arms are in reading order', 18)
+                   'the Python grammar reads str(t); constructor arguments of the arms are in reading order', 20)
     deferred: List[str] = []
     st: Dict[str, Any] = {}
 
